@@ -166,6 +166,110 @@ Proof.
   unfold from_block. cbn [bi_orig_constraints]. rewrite map_map. cbn [snd]. apply map_id.
 Qed.
 
+(** * The constraints of the created block: [_create] initialises private copies
+
+    [_create] never changes the constraint objects it is handed (/repo commit 88b3d0f); the block's
+    [orig_constraints] are copies whose [within_block] is set to the block's geometry where it was None.
+    So the constraints [Repeat(b, [])] / [Merge([b])] hand on ([created_constraints g a], carrying b's
+    geometry [g]) differ from the ones b itself was handed ([ca_constraints a]) exactly in the entries
+    that carried no geometry yet - and the blocks built from them have the same [orig_constraints],
+    whatever geometry [g'] the new block has. *)
+
+Lemma init_within_block_some : forall g h c, c_wb c = Some h -> init_within_block g c = c.
+Proof. intros g h c H. unfold init_within_block. rewrite H. destruct (has_within_block (c_kind c)); reflexivity. Qed.
+
+Lemma init_within_block_none : forall g c,
+  c_wb c = None -> has_within_block (c_kind c) = true ->
+  init_within_block g c = {| c_id := c_id c; c_kind := c_kind c; c_param := c_param c; c_wb := Some g |}.
+Proof. intros g c H K. unfold init_within_block. rewrite H, K. reflexivity. Qed.
+
+Lemma init_within_block_other : forall g c, has_within_block (c_kind c) = false -> init_within_block g c = c.
+Proof. intros g c K. unfold init_within_block. rewrite K. reflexivity. Qed.
+
+(** the three cases in one statement: every field but [within_block] is kept, and [within_block]
+    changes only from None to [g], only for the classes that have [init_within_block] *)
+Theorem init_within_block_spec : forall g c,
+  c_id (init_within_block g c) = c_id c /\ c_kind (init_within_block g c) = c_kind c /\
+  c_param (init_within_block g c) = c_param c /\
+  c_wb (init_within_block g c) =
+    match c_wb c with
+    | Some h => Some h
+    | None => if has_within_block (c_kind c) then Some g else None
+    end.
+Proof.
+  intros g c. unfold init_within_block.
+  destruct (has_within_block (c_kind c)) eqn:K; destruct (c_wb c) eqn:W; cbn [c_id c_kind c_param c_wb];
+    repeat split; try reflexivity; exact W.
+Qed.
+
+Lemma init_within_block_again : forall g g' c, init_within_block g' (init_within_block g c) = init_within_block g c.
+Proof.
+  intros g g' c. destruct (has_within_block (c_kind c)) eqn:K.
+  - destruct (c_wb c) as [h|] eqn:W.
+    + rewrite (init_within_block_some g h c W). apply (init_within_block_some g' h c W).
+    + rewrite (init_within_block_none g c W K). apply (init_within_block_some g' g). reflexivity.
+  - rewrite (init_within_block_other g c K). apply init_within_block_other. exact K.
+Qed.
+
+Lemma created_constraints_length : forall g a, length (created_constraints g a) = length (ca_constraints a).
+Proof. intros. unfold created_constraints. apply map_length. Qed.
+
+(** [Repeat(b, [])] for the block b that [_create] built from [a] (geometry [g]): as [repeat_nil_of_create],
+    and the constraints handed on are b's initialised copies; the new block's own [orig_constraints]
+    are b's, whatever its geometry [g'] *)
+Theorem repeat_nil_of_created : forall a g T P ws,
+  exists r, create_of (BRepeat (block_of_create true a g T P ws) []) = COk r /\
+    ca_design r = ca_design a /\ ca_crossings r = norm_crossings a /\ norm_crossings r = norm_crossings a /\
+    ca_sustains r = ca_sustains a /\ ca_rcc r = ca_rcc a /\
+    map snd (ca_constraints r) = map (init_within_block g) (map snd (ca_constraints a)) /\
+    ca_weights r = ws /\ ca_mode r = MRepeat /\ ca_alignment r = EqualPreamble /\
+    forall g', created_constraints g' r = created_constraints g a.
+Proof.
+  intros a g T P ws. unfold block_of_create.
+  destruct (repeat_nil_of_create a (created_constraints g a) T P ws) as [r [Hr [H1 [H2 [H3 [H4 [H5 [H6 [H7 [H8 H9]]]]]]]]]].
+  exists r. split; [exact Hr|]. repeat (split; [assumption|]).
+  split; [rewrite H6; unfold created_constraints; rewrite map_map; reflexivity|].
+  repeat (split; [assumption|]).
+  intro g'. unfold created_constraints at 1. rewrite <- map_map with (f := snd) (g := init_within_block g').
+  rewrite H6. unfold created_constraints. rewrite map_map.
+  apply map_ext. intro oc. apply init_within_block_again.
+Qed.
+
+Theorem merge_singleton_of_created : forall a g T P ws mode,
+  NoDup (ca_design a) ->
+  exists m, create_of (BMerge [block_of_create true a g T P ws] [] mode None) = COk m /\
+    ca_design m = ca_design a /\ ca_crossings m = norm_crossings a /\
+    ca_sustains m = firstn (length (norm_crossings a)) (ca_sustains a) /\ ca_rcc m = ca_rcc a /\
+    map snd (ca_constraints m) = map (init_within_block g) (map snd (ca_constraints a)) /\
+    ca_weights m = firstn (length (norm_crossings a)) ws /\ ca_mode m = mode /\ ca_alignment m = ca_alignment a /\
+    forall g', created_constraints g' m = created_constraints g a.
+Proof.
+  intros a g T P ws mode Hnd. unfold block_of_create.
+  destruct (merge_singleton_of_create a (created_constraints g a) T P ws mode Hnd) as [m [Hm [H1 [H2 [H3 [H4 [H5 [H6 [H7 H8]]]]]]]]].
+  exists m. split; [exact Hm|]. repeat (split; [assumption|]).
+  split; [rewrite H5; unfold created_constraints; rewrite map_map; reflexivity|].
+  repeat (split; [assumption|]).
+  intro g'. unfold created_constraints at 1. rewrite <- map_map with (f := snd) (g := init_within_block g').
+  rewrite H5. unfold created_constraints. rewrite map_map.
+  apply map_ext. intro oc. apply init_within_block_again.
+Qed.
+
+(** a user's Pin and MinimumTrials given to a CrossBlock of 4 trials, then [Repeat(block, [])]: the block
+    is handed the objects without geometry, Repeat hands on the block's copies - the Pin with the geometry
+    of the 4 trials *)
+Definition ex_geometry : geometry := {| g_trials := 4; g_preamble := 0; g_sustain := [(0, 1); (1, 1)] |}.
+Definition ex_pin : cinfo := {| c_id := 0; c_kind := KPin; c_param := (-1)%Z; c_wb := None |}.
+Definition ex_mint : cinfo := {| c_id := 1; c_kind := KMinimumTrials; c_param := 3%Z; c_wb := None |}.
+Definition ex_pin_block : binfo :=
+  block_of_create true (create_cross [0; 1] [0; 1] [ex_pin; ex_mint] true) ex_geometry 4 0 [1%Z].
+
+Lemma ex_pin_repeat :
+  ca_constraints (create_cross [0; 1] [0; 1] [ex_pin; ex_mint] true) = [(OOwn, ex_pin); (OOwn, ex_mint)] /\
+  exists r, create_of (BRepeat ex_pin_block []) = COk r /\
+    ca_constraints r = [(OBlock 0, {| c_id := 0; c_kind := KPin; c_param := (-1)%Z; c_wb := Some ex_geometry |});
+                        (OBlock 0, ex_mint)].
+Proof. split; [reflexivity|]. eexists. split; reflexivity. Qed.
+
 (** * MultiCrossBlock = Merge of one CrossBlock per crossing *)
 
 (** what [CrossBlock(design, c, [], rcc)] is after [_create], absent weight
